@@ -64,6 +64,50 @@ def _case(c):
     return None if r is None else ("C11/%s:%s" % (tag.split("-")[0] + "-" + tag.split("-")[1] if tag.count("-") else tag, r[0]), r[1])
 
 
+def gmode_case(toks):
+    """grammar-driven: a statement (enumerated from the .g4) whose mode list the reference model evaluates to a
+    non-integer value (float, complex, string-free expression, pi, function value ...) must not load"""
+    from bbv.props import c02
+    from bbv.model import refparse, denote
+    texts = c02.gtexts(toks)
+    line = c02._join(toks, texts)
+    body = [x for t, x in zip(toks, texts) if t != "NEWLINE"]
+    try:
+        stmt, readings = refparse.parse_statement(body)
+    except refparse.Bad:
+        return "skip"
+    verdicts = []
+    for rd in readings:
+        try:
+            denote.Model().run(dict(name="g", version="1.0", items=c02.GDECLS + [stmt[:4] + (rd, "none")]))
+            verdicts.append("ok")
+        except denote.Refused as e:
+            verdicts.append(str(e))
+        except Exception:  # noqa
+            verdicts.append("other")
+    if not verdicts or any(v != "non-integer mode" for v in verdicts):
+        return "skip"
+    # the arguments must be evaluable, otherwise something else may legitimately fail first - irrelevant: any exception is a refusal
+    script = "name g\nversion 1.0\n\n" + c02.GPRE + line + ("" if line.endswith("\n") else "\n")
+    st, p = common.loads(script)
+    if st == "ok":
+        return ("C11/mode-grammar-driven:accepted", "loaded with modes %r ;; %s" % ([o["modes"] for o in p.operations], line.strip()))
+    return None
+
+
+def _gchunk(chunk):
+    n = 0
+    V = common.Violations(keep=3)
+    for toks in chunk:
+        r = gmode_case(toks)
+        if r == "skip":
+            continue
+        n += 1
+        if r is not None:
+            V.add(r[0], {"tokens": list(toks)}, r[1])
+    return n, V.records()
+
+
 def locate(src, ident, start_line=1):
     lines = src.split("\n")
     for ln, l in enumerate(lines, 1):
@@ -153,6 +197,16 @@ def run(ctx):
     # calls fail is C07's subject - the flag is recorded in the evidence)
     res = pool.pmap(_case, cases, chunk=40)
     V = common.Violations(keep=6)
+    # grammar-driven non-integer modes: every `statement` sentence up to L tokens whose modes the model finds non-integer
+    from bbv.props import c02
+    (L, sents), _ = c02.grammar_statements(300000 if ctx.quick else 3000000)
+    chunks = [sents[i:i + 1000] for i in range(0, len(sents), 1000)]
+    ng = 0
+    for r in pool.pmap(_gchunk, chunks, chunk=1, timeout=3600):
+        if r == "TIMEOUT":
+            continue
+        ng += r[0]
+        V.merge(r[1])
     fam = collections.Counter()
     for c, r in zip(cases, res):
         fam[c[0].split("-")[0]] += 1
@@ -160,7 +214,7 @@ def run(ctx):
             V.add("C11/no-outcome", {"tag": c[0], "src": c[1], "expect": c[2], "needs_includes": "include" in c[0]}, "timeout")
         elif r is not None:
             V.add(r[0], {"tag": c[0], "src": c[1], "expect": c[2], "needs_includes": "include" in c[0]}, r[1])
-    cov = {"evaluations": len(cases), "distinct_nontrivial": len(set(c[1] for c in cases)),
+    cov = {"evaluations": len(cases) + ng, "distinct_nontrivial": len(set(c[1] for c in cases)) + ng, "grammar_driven_non_integer_mode_statements": ng, "grammar_driven_max_tokens": L,
            "rule": "valid prefix x valid suffix x exactly one fault: undefined name in %d slots (x %d names) and 3 metadata-option slots; %d reserved names x %d declaration forms; %d non-integer mode forms x 2 statement shapes; "
                    "%d complex expressions x %d int/float slots; wrong-type loop values x 3 bracket styles; 10 mismatched include calls. non-trivial = every case (each has exactly one fault); distinct by source text"
                    % (len(UND), len(NAMES), len(RESERVED), len(DECLS), len(MODES), len(CPLX), len(CSLOTS)),
@@ -172,6 +226,9 @@ def run(ctx):
 def replay(case):
     import tempfile
     import shutil
+    if "tokens" in case:
+        r = gmode_case(tuple(case["tokens"]))
+        return isinstance(r, tuple), repr(r)[:300]
     src = case["src"]
     d = None
     if case.get("needs_includes"):
